@@ -811,6 +811,16 @@ pub fn unhex(s: &str) -> Result<Vec<u8>, String> {
 
 pub fn to_replay(v: &MVal) -> serde_json::Value {
     use serde_json::json;
+    // JSON readers limit nesting (serde_json: 128 levels) and this form costs about four levels per document
+    // level: deep documents are written as the hex of their canonical encoding instead
+    if v.depth() > 20 {
+        return json!({"hex": hex(&encode(v))});
+    }
+    to_replay_tree(v)
+}
+
+fn to_replay_tree(v: &MVal) -> serde_json::Value {
+    use serde_json::json;
     match v {
         MVal::Null => json!(null),
         MVal::Bool(b) => json!(b),
@@ -818,10 +828,10 @@ pub fn to_replay(v: &MVal) -> serde_json::Value {
         MVal::U64(n) => json!({"u": n.to_string()}),
         MVal::F64(b) => json!({"f": format!("{:016x}", b)}),
         MVal::Str(s) => json!(s),
-        MVal::Arr(xs) => serde_json::Value::Array(xs.iter().map(to_replay).collect()),
+        MVal::Arr(xs) => serde_json::Value::Array(xs.iter().map(to_replay_tree).collect()),
         MVal::Obj(m) => {
             // objects are written as {"o":[[k,v],...]} so that scalar wrappers stay unambiguous
-            json!({"o": m.iter().map(|(k, v)| json!([k, to_replay(v)])).collect::<Vec<_>>()})
+            json!({"o": m.iter().map(|(k, v)| json!([k, to_replay_tree(v)])).collect::<Vec<_>>()})
         }
     }
 }
@@ -834,7 +844,9 @@ pub fn from_replay(j: &serde_json::Value) -> Result<MVal, String> {
         J::String(s) => MVal::Str(s.clone()),
         J::Array(xs) => MVal::Arr(xs.iter().map(from_replay).collect::<Result<_, _>>()?),
         J::Object(m) => {
-            if let Some(J::String(s)) = m.get("i") {
+            if let Some(J::String(h)) = m.get("hex") {
+                validate(&unhex(h)?)?
+            } else if let Some(J::String(s)) = m.get("i") {
                 MVal::I64(s.parse().map_err(|e| format!("{e}"))?)
             } else if let Some(J::String(s)) = m.get("u") {
                 MVal::U64(s.parse().map_err(|e| format!("{e}"))?)
